@@ -1,24 +1,318 @@
 //! Per-property selection of checkers and generator emphasis for the TG case type.
-use crate::reggen::GenCfg;
+use crate::corpus;
+use crate::faults::{self, Fault};
+use crate::reggen::{self, GenCfg};
 use crate::rng::Rng;
-use crate::tg::{random_cases, Ctx, SetCfg};
+use crate::sets::{OpSpec, SettingsSpec};
+use crate::tg::{bit_order_subs, item_paths, rand_settings, random_cases, Ctx, SetCfg};
+use scale_info::PortableRegistry;
+
+pub fn is_pair(prop: &str) -> bool {
+    matches!(prop, "C06" | "C09" | "C17")
+}
 
 pub fn evals(prop: &str) -> Vec<(&'static str, &'static str)> {
-    let mut v = vec![("corr_ops", "corr_ops"), ("corr_gen", "corr_gen"), ("corr_paths", "corr_paths")];
+    if is_pair(prop) {
+        let mut v = vec![("corr_pair", "corr_pair")];
+        match prop {
+            "C06" => v.extend([("prop_same_tokens", "prop_same_tokens"), ("prop_sorted_derives", "prop_sorted_derives")]),
+            "C09" => v.extend([("prop_frame", "prop_frame"), ("prop_switches", "prop_switches")]),
+            "C17" => v.extend([("prop_same_tokens", "prop_same_tokens"), ("hyp_c17", "hyp_c17")]),
+            _ => {}
+        }
+        v.push(("hyp_both_ok", "hyp_both_ok"));
+        return v;
+    }
+    let mut v = vec![
+        ("corr_ops", "corr_ops"),
+        ("corr_gen", "corr_gen"),
+        ("corr_paths", "corr_paths"),
+        ("corr_upcasts", "corr_upcasts"),
+    ];
     match prop {
+        "C01" => v.extend([("prop_faithful", "prop_faithful"), ("hyp_coincidence_free", "hyp_coincidence_free")]),
+        "C02" => v.extend([("prop_syn_parses", "prop_syn_parses"), ("prop_closed", "prop_closed")]),
+        "C07" => v.extend([("prop_subst", "prop_subst"), ("hyp_has_subst", "hyp_has_subst")]),
+        "C08" => v.extend([("prop_derives_exact", "prop_derives_exact"), ("hyp_has_recursive", "hyp_has_recursive")]),
+        "C10" => v.extend([("prop_fault_expect", "prop_fault_expect"), ("prop_wf_total", "prop_wf_total"), ("hyp_wf", "hyp_wf")]),
+        "C18" => v.extend([("prop_standalone", "prop_standalone")]),
         _ => {}
     }
     v.push(("hyp_gen_ok", "hyp_gen_ok"));
     v
 }
 
-pub fn rule(_prop: &str) -> &'static str {
-    "registries generated as programs (generic struct/enum definitions in nested modules + closed instantiations, interned in scale-info order) with random settings histories; non-trivial = distinct (registry, settings) with at least one generated item"
+pub fn rule(prop: &str) -> &'static str {
+    match prop {
+        "C10" => "fault enumeration: for each well-formed base registry every entry id, every reference site and every field list receives one fault (wrong id / missing id / mixed fields), plus settings without compact / bits path, plus fault-free registries; non-trivial = distinct (registry, settings) with at least one generated item",
+        "C06" => "pairs of runs on equal inputs: permuted / repeated builder histories and fresh settings objects; outputs must be token-identical; non-trivial = distinct pair with at least one generated item",
+        "C09" => "pairs of settings differing in exactly one switch (root, docs, codec, alloc, compact path, bits path) over the arm-coverage corpus and random programs",
+        "C17" => "pairs (registry, consistently renumbered registry) and (registry, retain()-ed sub-registry)",
+        _ => "arm-coverage corpus x settings, then registries generated as programs (generic struct/enum definitions in nested modules + closed instantiations, interned in scale-info order) with random settings histories; non-trivial = distinct (registry, settings) with at least one generated item",
+    }
+}
+
+fn corpus_regs() -> Vec<(String, serde_json::Value, PortableRegistry)> {
+    corpus::programs()
+        .into_iter()
+        .map(|(n, p)| {
+            let (rj, _) = reggen::build(&p);
+            let reg = reggen::to_registry(&rj);
+            (n, rj, reg)
+        })
+        .collect()
+}
+
+fn base_spec(reg: &PortableRegistry) -> SettingsSpec {
+    let mut s = SettingsSpec::default();
+    s.ops.extend(bit_order_subs(reg));
+    s
+}
+
+fn all_on(reg: &PortableRegistry) -> SettingsSpec {
+    let mut s = base_spec(reg);
+    s.ops.push(OpSpec::DerivesAll(vec!["::codec::Encode".into(), "::codec::Decode".into(), "Debug".into()]));
+    s
+}
+
+/// consistent renumbering of a registry by a permutation of its entries
+pub fn renumber(reg: &serde_json::Value, perm: &[usize]) -> serde_json::Value {
+    // perm[new_pos] = old_pos
+    let types = reg["types"].as_array().unwrap();
+    let n = types.len();
+    let mut new_of_old = vec![0usize; n];
+    for (newp, oldp) in perm.iter().enumerate() {
+        new_of_old[*oldp] = newp;
+    }
+    let sites = faults::sites(reg);
+    let mut r = reg.clone();
+    for s in &sites {
+        let old = reg.pointer(s).unwrap().as_u64().unwrap() as usize;
+        *r.pointer_mut(s).unwrap() = serde_json::Value::from(new_of_old[old] as u64);
+    }
+    let old_types = r["types"].as_array().unwrap().clone();
+    let mut out = vec![];
+    for (newp, oldp) in perm.iter().enumerate() {
+        let mut e = old_types[*oldp].clone();
+        e["id"] = serde_json::Value::from(newp as u64);
+        out.push(e);
+    }
+    serde_json::json!({ "types": out })
 }
 
 pub fn cases(prop: &str, tier: &str, ctx: &mut Ctx, rng: &mut Rng) {
-    let scale = if tier == "thorough" { 8 } else { 1 };
-    let _ = prop;
-    random_cases(ctx, rng, 400 * scale, &GenCfg::default(),
-                 &SetCfg { derives: true, substitutes: true, switches: true, missing_paths: false });
+    let thorough = tier == "thorough";
+    let scale = if thorough { 6 } else { 1 };
+    let corp = corpus_regs();
+    let full = SetCfg { derives: true, substitutes: true, switches: true, missing_paths: false };
+    match prop {
+        "C10" => {
+            // fault-free
+            for (n, rj, reg) in &corp {
+                ctx.push_reg(&format!("corpus:{n}"), reg, Some(rj), &all_on(reg));
+            }
+            // single faults on small base registries
+            let mut bases: Vec<(serde_json::Value, PortableRegistry)> = vec![];
+            let gc = GenCfg { max_defs: 3, ..GenCfg::default() };
+            let mut tries = 0;
+            while bases.len() < 6 * scale && tries < 2000 {
+                tries += 1;
+                let p = reggen::rand_program(rng, &gc);
+                let (rj, _) = reggen::build(&p);
+                let reg = reggen::to_registry(&rj);
+                if reg.types.len() <= 14 && item_paths(&reg).len() >= 1 {
+                    bases.push((rj, reg));
+                }
+            }
+            for (n, rj, reg) in &corp {
+                if reg.types.len() <= 30 && (n == "compact" || n == "bits" || n == "recursive" || n == "nested-generics") {
+                    bases.push((rj.clone(), reggen::to_registry(rj)));
+                }
+            }
+            for (rj, reg) in &bases {
+                let spec = base_spec(reg);
+                let n = reg.types.len();
+                // C10 quantifies over bases with unique item paths: expectations only there
+                let unique = {
+                    let mut seen = std::collections::BTreeSet::new();
+                    reg.types.iter().filter(|t| t.ty.path.segments.len() >= 2).all(|t| seen.insert(t.ty.path.segments.clone()))
+                };
+                for pos in 0..n {
+                    let f = Fault::Id { pos, new_id: (pos as u32 + 1 + rng.below(3) as u32) };
+                    let fr = faults::apply(rj, &f);
+                    let new_id = fr["types"][pos]["id"].as_u64().unwrap();
+                    let r2 = reggen::to_registry(&fr);
+                    ctx.push_full("fault:id", &r2, Some(&fr), &spec,
+                                  Some(("RegistryTypeIdsInvalid".into(), vec![new_id as u128, pos as u128])));
+                }
+                let sites = faults::sites(rj);
+                for si in 0..sites.len() {
+                    let missing = (n + rng.below(5)) as u32;
+                    let fr = faults::apply(rj, &Fault::Missing { site: si, id: missing });
+                    let r2 = reggen::to_registry(&fr);
+                    // expectation only where the site is certainly visited: a field of an item-eligible entry
+                    let parts: Vec<&str> = sites[si].split('/').collect();
+                    let pos: usize = parts[2].parse().unwrap();
+                    let is_field = sites[si].contains("/fields/");
+                    let t = &reg.types[pos].ty;
+                    let eligible = t.path.segments.len() >= 2
+                        && !(t.path.segments.len() == 3 && t.path.segments[0] == "bitvec");
+                    let expect = if is_field && eligible && unique { Some(("TypeNotFound".to_string(), vec![missing as u128])) } else { None };
+                    ctx.push_full("fault:missing-id", &r2, Some(&fr), &spec, expect);
+                }
+                for (pos, variant, nf) in faults::field_lists(rj) {
+                    let field = rng.below(nf);
+                    let fr = faults::apply(rj, &Fault::Mixed { pos, variant, field });
+                    let r2 = reggen::to_registry(&fr);
+                    let t = &reg.types[pos].ty;
+                    let expect = if t.path.segments.len() >= 2 && unique { Some(("InvalidFields".to_string(), vec![])) } else { None };
+                    ctx.push_full("fault:mixed-fields", &r2, Some(&fr), &spec, expect);
+                }
+                // missing settings paths
+                let mut s1 = spec.clone();
+                s1.compact = None;
+                ctx.push_reg("fault:no-compact-path", reg, Some(rj), &s1);
+                let mut s2 = spec.clone();
+                s2.bits = None;
+                ctx.push_reg("fault:no-bits-path", reg, Some(rj), &s2);
+            }
+            random_cases(ctx, rng, 150 * scale, &GenCfg::default(),
+                         &SetCfg { derives: false, substitutes: false, switches: true, missing_paths: true });
+        }
+        "C06" => {
+            let gc = GenCfg::default();
+            let mut regs: Vec<(serde_json::Value, PortableRegistry)> = corp.iter().map(|(_, rj, r)| (rj.clone(), reggen::to_registry(rj))).collect();
+            let _ = &regs;
+            for _ in 0..(120 * scale) {
+                let p = reggen::rand_program(rng, &gc);
+                let (rj, _) = reggen::build(&p);
+                let reg = reggen::to_registry(&rj);
+                regs.push((rj, reg));
+            }
+            for (_rj, reg) in &regs {
+                let mut spec = rand_settings(rng, reg, &full);
+                // many derives / attributes so that an order leak would show
+                let paths = item_paths(reg);
+                for k in 0..3 {
+                    spec.ops.push(OpSpec::DerivesAll(vec![format!("D{k}"), format!("::m::E{k}"), "Clone".into()]));
+                    spec.ops.push(OpSpec::AttrsAll(vec![format!("#[attr{k}]")]));
+                    if !paths.is_empty() {
+                        let key = rng.pick(&paths).join("::");
+                        spec.ops.push(OpSpec::DerivesFor(key.clone(), vec![format!("S{k}"), "Debug".into()], k % 2 == 0));
+                        spec.ops.push(OpSpec::AttrsFor(key, vec![format!("#[sattr{k}]")], k % 2 == 1));
+                    }
+                }
+                // permutation of the history that keeps the relative order of substitute ops (last insert wins)
+                let mut spec2 = spec.clone();
+                let (subs, mut ders): (Vec<OpSpec>, Vec<OpSpec>) = spec2.ops.drain(..).partition(|o| {
+                    matches!(o, OpSpec::SubInsert(..) | OpSpec::SubInsertIfAbsent(..) | OpSpec::SubExtend(..))
+                });
+                rng.shuffle(&mut ders);
+                // repeat one registration
+                if let Some(first) = ders.first().cloned() {
+                    ders.push(first);
+                }
+                // interleave
+                let mut ops = vec![];
+                let (mut i, mut j) = (0, 0);
+                while i < subs.len() || j < ders.len() {
+                    if j >= ders.len() || (i < subs.len() && rng.chance(1, 2)) {
+                        ops.push(subs[i].clone());
+                        i += 1;
+                    } else {
+                        ops.push(ders[j].clone());
+                        j += 1;
+                    }
+                }
+                spec2.ops = ops;
+                ctx.push_pair("permuted-history", "same", (reg, &spec), (reg, &spec2));
+                ctx.push_pair("repeated-run", "same", (reg, &spec), (reg, &spec));
+            }
+        }
+        "C09" => {
+            let gc = GenCfg::default();
+            let mut regs: Vec<PortableRegistry> = corp.iter().map(|(_, rj, _)| reggen::to_registry(rj)).collect();
+            for _ in 0..(40 * scale) {
+                let p = reggen::rand_program(rng, &gc);
+                let (rj, _) = reggen::build(&p);
+                regs.push(reggen::to_registry(&rj));
+            }
+            for reg in &regs {
+                // a random base point of the switch cube, then flip each switch
+                let reps = if thorough { 4 } else { 2 };
+                for _ in 0..reps {
+                    let mut base = rand_settings(rng, reg, &SetCfg { derives: true, substitutes: false, switches: true, missing_paths: false });
+                    if rng.chance(1, 2) {
+                        base.ops.push(OpSpec::DerivesAll(vec!["::codec::Encode".into()]));
+                    }
+                    let mut flip = |kind: &str, f: &dyn Fn(&mut SettingsSpec)| {
+                        let mut b = base.clone();
+                        f(&mut b);
+                        ctx.push_pair(&format!("flip:{kind}"), kind, (reg, &base), (reg, &b));
+                    };
+                    flip("root", &|s| s.root = if s.root == "types" { "other_root".into() } else { "types".into() });
+                    flip("docs", &|s| s.docs = !s.docs);
+                    flip("codec", &|s| s.codec = !s.codec);
+                    flip("alloc", &|s| s.alloc = match &s.alloc { None => Some("::alloc".into()), Some(a) if a == "::alloc" => Some("::my_crate::alloc_crate".into()), _ => None });
+                    flip("compact_path", &|s| s.compact = Some(if s.compact.as_deref() == Some("::codec::Compact") { "::other::Cpt".into() } else { "::codec::Compact".into() }));
+                    flip("bits_path", &|s| s.bits = Some(if s.bits.as_deref() == Some("::bits::DecodedBits") { "::other::Bits".into() } else { "::bits::DecodedBits".into() }));
+                }
+            }
+        }
+        "C17" => {
+            let gc = GenCfg::default();
+            let mut regs: Vec<serde_json::Value> = corp.iter().map(|(_, rj, _)| rj.clone()).collect();
+            for _ in 0..(150 * scale) {
+                let p = reggen::rand_program(rng, &gc);
+                let (rj, _) = reggen::build(&p);
+                regs.push(rj);
+            }
+            for rj in &regs {
+                let reg = reggen::to_registry(rj);
+                let n = reg.types.len();
+                let spec = rand_settings(rng, &reg, &SetCfg { derives: true, substitutes: true, switches: true, missing_paths: false });
+                for _ in 0..2 {
+                    let mut perm: Vec<usize> = (0..n).collect();
+                    rng.shuffle(&mut perm);
+                    let r2j = renumber(rj, &perm);
+                    let r2 = reggen::to_registry(&r2j);
+                    ctx.push_pair("renumbered", "renumbered", (&reg, &spec), (&r2, &spec));
+                }
+                // restriction to the types reachable from a chosen set of ids (scale-info's own retain)
+                if n > 0 {
+                    let mut keep: Vec<u32> = vec![];
+                    for _ in 0..rng.range(1, 3) {
+                        keep.push(rng.below(n) as u32);
+                    }
+                    let mut r3 = reg.clone();
+                    r3.retain(|id| keep.contains(&id));
+                    ctx.push_pair("retain", "retain", (&reg, &spec), (&r3, &spec));
+                }
+            }
+        }
+        _ => {
+            // corpus x settings
+            for (n, rj, reg) in &corp {
+                ctx.push_reg(&format!("corpus:{n}"), reg, Some(rj), &all_on(reg));
+                let mut s = base_spec(reg);
+                s.codec = false;
+                s.docs = false;
+                s.alloc = Some("::alloc".into());
+                s.root = "root".into();
+                ctx.push_reg(&format!("corpus:{n}"), reg, Some(rj), &s);
+                for _ in 0..(if prop == "C07" || prop == "C08" { 6 } else { 2 }) {
+                    let spec = rand_settings(rng, reg, &full);
+                    ctx.push_reg(&format!("corpus:{n}"), reg, Some(rj), &spec);
+                }
+            }
+            random_cases(ctx, rng, 300 * scale, &GenCfg::default(), &full);
+            if thorough {
+                let reg = crate::util::polkadot_registry();
+                let mut spec = base_spec(&reg);
+                spec.ops.push(OpSpec::DerivesAll(vec!["::codec::Encode".into(), "::codec::Decode".into()]));
+                spec.ops.push(OpSpec::DerivesFor("polkadot_runtime::RuntimeCall".into(), vec!["Clone".into()], true));
+                ctx.push_reg("polkadot", &reg, None, &spec);
+            }
+        }
+    }
 }
